@@ -339,6 +339,18 @@ func getTagType(v reflect.Value) (byte, reflect.Value) {
 			return TagString, v
 		}
 	}
+	// An addressable value of a named type may implement the interfaces
+	// with pointer receivers (like the decoder's indirect, which takes the address too).
+	if v.Kind() != reflect.Pointer && v.Type().Name() != "" && v.CanAddr() {
+		if pv := v.Addr(); pv.Type().NumMethod() > 0 && pv.CanInterface() {
+			i := pv.Interface()
+			if u, ok := i.(Marshaler); ok {
+				return u.TagType(), pv
+			} else if _, ok := i.(encoding.TextMarshaler); ok {
+				return TagString, pv
+			}
+		}
+	}
 
 	switch v.Kind() {
 	case reflect.Array, reflect.Slice:
